@@ -610,6 +610,11 @@ func (s *sim) compareAt(pos int) {
 			}
 			for _, k := range []string{keyHLL, keyHClear, keyZFix, keyAbort} {
 				if m := d[k]; len(m) > 0 {
+					if k == keyHLL {
+						// no item list: which items differ depends on the run-to-run random bytes of a written-back sketch
+						s.found("data-differs", k, "%s differ in what the KV/bitmap commands see under keys written by PFADD", where)
+						continue
+					}
 					s.found("data-differs", k, "%s differ: %s", where, strings.Join(m, "; "))
 				}
 			}
@@ -788,6 +793,10 @@ func (s *sim) compareReplies() {
 				}
 				_, per := s.attribution(a, b, i+1)
 				key := per[i]
+				if key == keyHLL {
+					s.found("reply-differs", key, "request %d (%s, ts=%d) answered differently on instance %d and on instance %d", i, r.String(), r.ts, a.idx, b.idx)
+					continue
+				}
 				s.found("reply-differs", key, "request %d (%s, ts=%d) answered %s on instance %d and %s on instance %d", i, r.String(), r.ts, clip(ra), a.idx, clip(rb), b.idx)
 				if key == "" {
 					return
